@@ -162,7 +162,7 @@ def nearest(rec, key, det, ds, slon, slat, qlon, qlat, qconv, tol, kw, rng, E, q
         o = np.argsort(d)
         if len(d) > 1 and d[o[1]] - d[o[0]] < 1e-9:
             amb = True
-        if abs(d[o[0]] - tol) < 1e-9:
+        if abs(d[o[0]] - tol) < 1e-9 and not (tol == 0.0 and d[o[0]] == 0.0):
             amb = True
         if d[o[0]] > tol:
             fail = True
@@ -261,8 +261,8 @@ def idw(rec, key, det, ds, slon, slat, qlon, qlat, qconv, tol, kw, rng, E, qarg)
         d = dist(slon, slat, lo, la)
         o = np.argsort(d, kind="stable")
         inr = [i for i in o if d[i] <= tol][:ms]
-        if any(abs(d[i] - tol) < 1e-9 for i in range(len(d))):
-            amb = True
+        if any(abs(d[i] - tol) < 1e-9 and not (tol == 0.0 and d[i] == 0.0) for i in range(len(d))):
+            amb = True          # (a distance of exactly zero is within a tolerance of zero: lattice coordinates, no rounding)
         k = len(inr)
         if k < len(o) and k == ms and k > 0 and abs(d[o[k]] - d[o[k - 1]]) < 1e-9:
             amb = True
